@@ -96,35 +96,15 @@ fn finish(p: &Prog, pos: usize, vs: &[usize], body: &[PG], states: &[Vec<T>], li
     for s in states {
         // re-create the state: every program variable unified with its walked value (fresh variables of the
         // prefix become new hidden variables), then the substituted body, then the rest of the program
-        let mut extra: Vec<usize> = vec![];
-        fn collect(t: &T, extra: &mut Vec<usize>) {
-            match t {
-                T::Var(k) if *k >= 1000 => {
-                    if !extra.contains(k) {
-                        extra.push(*k)
-                    }
-                }
-                T::Cons(h, tl) => {
-                    collect(h, extra);
-                    collect(tl, extra)
-                }
-                T::Comp(_, a) => a.iter().for_each(|x| collect(x, extra)),
-                _ => {}
-            }
-        }
-        s.iter().for_each(|t| collect(t, &mut extra));
         let nv = p.nvars;
-        let ren = |t: &T| t.subst(&|x| match x {
-            T::Var(k) if *k >= 1000 => Some(T::Var(nv + extra.iter().position(|e| e == k).unwrap())),
-            _ => None,
-        });
-        let vals: Vec<T> = vs.iter().map(|i| ren(&s[*i])).collect();
+        let (rs, nextra) = crate::term::rename_hidden(s, nv);
+        let vals: Vec<T> = vs.iter().map(|i| rs[*i].clone()).collect();
         // the prefix itself is kept (its disequalities are part of the state), then narrowed to this state
         let mut b: Vec<PG> = p.body[..pos].to_vec();
-        b.push(PG::Eq(T::list((0..nv).map(T::Var).collect()), T::list(s.iter().map(|t| ren(t)).collect())));
+        b.push(PG::Eq(T::list((0..nv).map(T::Var).collect()), T::list(rs.clone())));
         b.extend(body.iter().map(|g| subst_cells(g, &vals)));
         b.extend(p.body[pos + 1..].iter().cloned());
-        let q = Prog { nvars: nv + extra.len(), nq: p.nq, take: 0, body: b, raw: false };
+        let q = Prog { nvars: nv + nextra, nq: p.nq, take: 0, body: b, raw: false };
         match run_prog(&q) {
             RunOut::Answers(a, _) => want.extend(a.iter().map(|x| x.show(""))),
             _ => return (line, None, false, fuel, kf),
